@@ -220,8 +220,19 @@ func (e *Enc) call(v *ssa.Call, c *ssa.CallCommon) {
 			if !hasMod {
 				e.oblige("frame", fmt.Sprintf("frame/call(%s)@%s", ci.key, label), "false", e.fv.modTags(), "callee has no modifies clause")
 			} else {
-				goal := fmt.Sprintf("(forall ((r Ref)) (=> (and (isalloc %s r) %s) %s))", e.H0(heapAlloc), modPred("r"), e.fv.modPred(e, "r"))
-				e.oblige("frame", fmt.Sprintf("frame/call(%s)@%s", ci.key, label), goal, e.fv.modTags(), "callee modifies ⊆ caller modifies")
+				seen := map[string]bool{}
+				for _, h := range refHeaps {
+					cm := modPred("r", h)
+					if cm == "false" {
+						continue
+					}
+					goal := fmt.Sprintf("(forall ((r Ref)) (=> (and (isalloc %s r) %s) %s))", e.H0(heapAlloc), cm, e.fv.modPred(e, "r", h))
+					if seen[goal] {
+						continue
+					}
+					seen[goal] = true
+					e.oblige("frame", fmt.Sprintf("frame/call(%s)/%s@%s", ci.key, h, label), goal, e.fv.modTags(), "callee modifies ⊆ caller modifies")
+				}
 			}
 		}
 		for _, h := range writes {
@@ -246,7 +257,7 @@ func (e *Enc) call(v *ssa.Call, c *ssa.CallCommon) {
 		}
 		if hasMod && isRefHeap(w.heapSorts[h]) {
 			e.assume(fmt.Sprintf("(forall ((r Ref)) (! (=> (and (isalloc %s r) (not %s)) (= (select %s r) (select %s r))) :pattern ((select %s r))))",
-				allocPre, modPred("r"), nw, old, nw))
+				allocPre, modPred("r", h), nw, old, nw))
 		}
 	}
 
@@ -345,7 +356,7 @@ func (e *Enc) valueOnly(ci *calleeInfo) bool {
 
 // calleeEffects: which heaps the callee may write, whether it has a modifies
 // specification, and its modifies predicate (evaluated in the pre-state).
-func (e *Enc) calleeEffects(ci *calleeInfo, env *Env) (writes []string, hasMod bool, modPred func(r string) string) {
+func (e *Enc) calleeEffects(ci *calleeInfo, env *Env) (writes []string, hasMod bool, modPred func(r, heap string) string) {
 	w := e.w
 	set := map[string]bool{heapAlloc: true}
 	if ci.inRepo {
@@ -381,7 +392,7 @@ func (e *Enc) calleeEffects(ci *calleeInfo, env *Env) (writes []string, hasMod b
 					}
 					set[h] = true
 				}
-			case m.Pred != nil:
+			case m.Pred != nil || len(m.Objs) > 0:
 				hasMod = true
 				preds = append(preds, m)
 				if m.FieldsOf != "" {
@@ -406,25 +417,9 @@ func (e *Enc) calleeEffects(ci *calleeInfo, env *Env) (writes []string, hasMod b
 	for k, v := range e.cur {
 		snap[k] = v
 	}
-	modPred = func(r string) string {
-		if len(preds) == 0 {
-			return "false"
-		}
-		var ds []string
-		for _, m := range preds {
-			c := &Env{e: e, vars: map[string]EV{}, parent: env, curVer: snap, oldVer: snap}
-			c.vars[m.Var] = EV{r, tRef}
-			t, _, err := c.elab(m.Pred)
-			if err != nil {
-				e.errorf("modifies of %s: %v", ci.key, err)
-				continue
-			}
-			ds = append(ds, t)
-		}
-		if len(ds) == 1 {
-			return ds[0]
-		}
-		return "(or " + strings.Join(ds, " ") + ")"
+	modPred = func(r, heap string) string {
+		c := &Env{e: e, vars: map[string]EV{}, parent: env, curVer: snap, oldVer: snap}
+		return modDisjunction(e, c, preds, r, heap, "modifies of "+ci.key)
 	}
 	return sortedHeapNames(set), hasMod, modPred
 }
@@ -457,7 +452,7 @@ func (e *Enc) builtin(v *ssa.Call, c *ssa.CallCommon, ci calleeInfo) {
 		m, k := e.val(c.Args[0]), e.val(c.Args[1])
 		hd := w.heapMapDom(mt)
 		// delete on a nil map is a no-op
-		e.frameWrite(m, "delete")
+		e.frameWrite(m, "delete", hd)
 		e.setHeap(hd, fmt.Sprintf("(ite (= %s nil) %s (store %s %s (store (select %s %s) %s false)))", m, e.H(hd), e.H(hd), m, e.H(hd), m, k))
 	case "print", "println":
 	case "ssa:wrapnilchk":
